@@ -67,6 +67,9 @@ func init() {
 		sc.Stub = []string{"host.Host/network (simhost)", "pb.MessageSender (level A, simnet.Sender)", "remote peers (scripted)"}
 		sc.Faults = []string{"fault_dial_fail", "fault_rpc_error", "fault_lying_reply", "fault_cancel", "time_advance", "cancel_observed", "fault_bad_addr_presentation", "probe_event_consumed_with_calls_parked", "probe_named_bad_then_good",
 			"probe_key_peer", "probe_key_ghost", "probe_key_self", "probe_target_learned", "probe_target_failed", "probe_target_failed_k_others_live", "probe_target_filter_rejected_learned", "probe_target_returned"}
+		if sc.Name == "lookup-faulty" {
+			sc.Faults = append(sc.Faults, c01ReqErrFaults()...)
+		}
 		return sc
 	}
 	sim.Register(common(&sim.Scenario{Prop: "C01", Name: "lookup-faulty", Weight: 3, Run: func(s *sim.Sim) {
@@ -80,6 +83,7 @@ func init() {
 		case 2:
 			c.Universe = "random-nofilter"
 		}
+		c.ReqErr = c01ReqErr(s) // the shape of a request failure (c01_reqerr.go)
 		c.LazyEvents = s.Chance("lazy-events", 1, 4)
 		if !c.LazyEvents && s.Chance("cancel", 1, 4) {
 			// (a cancelled lookup drops events it cannot publish at once, so the
@@ -112,7 +116,11 @@ func init() {
 }
 
 // checkC01 evaluates the C01 oracle on one finished lookup.
-func checkC01(s *sim.Sim, o *lookupObs) {
+func checkC01(s *sim.Sim, o *lookupObs) { checkC01x(s, o, nil) }
+
+// checkC01x: div != nil when the node runs the per-response IP-diversity
+// filter (c01_diversity.go); it supplies that filter's verdicts per reply.
+func checkC01x(s *sim.Sim, o *lookupObs, div *c01Div) {
 	u, self, K := o.h.U, o.h.U.Self.ID, o.cfg.K
 	res, _ := o.op.Result.([]peer.ID)
 
@@ -232,7 +240,15 @@ func checkC01(s *sim.Sim, o *lookupObs) {
 		reply := d.Peers
 		inReply := idSet(reply)
 		heard := v.heardBy[p]
+		var divMay, divMust map[peer.ID]bool
+		if div != nil {
+			divMay, divMust = div.verdicts(d.Step, K, self)
+			div.probes(d.Step, K, self, divMay, divMust)
+		}
 		for _, hp := range heard {
+			if divMust[hp] && string(hp) != o.cfg.Key {
+				s.Violate("event-heard-filtered", "Response event for %s lists %s although its IP group is over-represented in that reply (more than %d distinct peers)", u.Name(p), u.Name(hp), div.hi())
+			}
 			if !inReply[hp] {
 				s.Violate("event-heard-invented", "Response event for %s lists %s which its reply did not contain", u.Name(p), u.Name(hp))
 			}
@@ -257,6 +273,12 @@ func checkC01(s *sim.Sim, o *lookupObs) {
 			}
 			if o.cfg.AddrFilter && !d.Good[rp] && string(rp) != o.cfg.Key {
 				continue // presented without a filter-passing address: may be dropped
+			}
+			if divMay[rp] {
+				if divMust[rp] && !v.learned[rp] {
+					s.Count("probe_div_crowded_peer_never_learned")
+				}
+				continue // one of its IP groups may count as over-represented in this reply
 			}
 			if o.cfg.AddrFilter && !tblSet[rp] {
 				for _, e := range o.deliveries {
